@@ -809,7 +809,18 @@ def check_parallel_chain_inputs(ctx: Ctx) -> None:
         ctx.ob("13.9-own-inputs", cname(_PCH, "MDOParallelChain", mname), bool(ok), "the parallel executor must be given the per-discipline copies", node=(ex or [g])[0], stmt=f"{callee}.execute(self._get_input_data_copies())")
 
 
+def check_shared_cache_entry(ctx: Ctx) -> None:
+    """13.10: workers sharing a cache interleave their calls (outputs(A), outputs(B), jacobian(A), jacobian(B)): every
+    access, hit or creation, must designate ITS entry as the last accessed one before the values are written (rule 5.10
+    of C05; sequential runs never see the difference)."""
+    from gv.props import c05
+    from gv.props.c12 import _Prefixed
+
+    c05.check_last_accessed(_Prefixed(ctx, "13.10-shared-cache/"))
+
+
 def run(ctx: Ctx) -> None:
+    check_shared_cache_entry(ctx)
     check_optimal_step_slots(ctx)
     check_parallel_chain_inputs(ctx)
     check_discipline_slots(ctx)
